@@ -1028,13 +1028,26 @@ def call(
         else:
             data = transformer.to_dict(data)
 
-    if new_context.options.cast_keyword_str:
-        _data = {}
-        for key, val in data.items():
-            if not isinstance(key, str):
-                key = transformer.to_str(key)
-            _data[key] = val
-        data = _data
+    try:
+        if type(data) is not dict:
+            # the mapping is unpacked as keyword arguments below: read it here, where a failure is a ParseError
+            data = dict(data)
+        if new_context.options.cast_keyword_str:
+            _data = {}
+            for key, val in data.items():
+                if not isinstance(key, str):
+                    key = transformer.to_str(key)
+                _data[key] = val
+            data = _data
+        else:
+            for key in data:
+                if not isinstance(key, str):
+                    # f(*args, **data) would raise the interpreter's bare TypeError
+                    raise TypeError(
+                        f"invalid key: {repr(key)} for {func}, keys must be str (or set cast_keyword_str=True)"
+                    )
+    except Exception as e:
+        raise exc.ParseError(value=data, origin_exc=e) from e
 
     f = parser.wrap(
         options, parse_params=not ignore_params, parse_result=not ignore_result
